@@ -97,6 +97,29 @@ def handleF (F : FieldImpl) : List String → String
     match n.toNat? with
     | some n => conv F (F.tryFrom n)
     | _ => "bad-op"
+  -- small integer conversions: `From<uW>` is `new`, `TryFrom<integer>` / `TryFrom<[u8; 8]>` reject exactly n ≥ p,
+  -- integer-from-element conversions give the canonical residue when it fits the target width
+  | ["fromint", w, v] =>
+    match w.toNat?, v.toNat? with
+    | some w, some v => if w == 0 ∨ w > 64 ∨ v ≥ 2 ^ w then "bad-op" else elem F (F.new v)
+    | _, _ => "bad-op"
+  | ["tryint", _, v] =>
+    match v.toNat? with
+    | some v => conv F (F.tryFrom v)
+    | _ => "bad-op"
+  | ["tryarr", h] =>
+    match unhex h with
+    | some bs => if bs.length ≠ 8 then "bad-op" else conv F (F.tryFrom (ofLeBytes bs))
+    | none => "bad-op"
+  | ["into", w, raw] =>
+    match w.toNat?, raw.toNat? with
+    | some w, some raw =>
+      if !(F.inv? raw) then "bad-op"
+      else
+        let v := F.asInt raw
+        let fits := if w == 1 then v ≤ 1 else if w == 128 then true else v < 2 ^ w
+        if fits then toString v else "err"
+    | _, _ => "bad-op"
   | ["serdede", n] =>          -- serde: `try_from` of the integer (build variant `serde` of the harness)
     match n.toNat? with
     | some n => conv F (F.tryFrom n)
